@@ -13,9 +13,23 @@ pub uninterp spec fn written_class_flags(n: Node) -> Option<ClassFlags>;        
 pub uninterp spec fn says_export(f: ClassFlags) -> bool;                          // ClassFlags::is_export
 #[verifier::external_body] pub fn parse_class_flags(n: Node) -> (r: Result<ClassFlags, VErr>) ensures r is Ok <==> written_class_flags(n) is Some, r is Ok ==> r->Ok_0 == written_class_flags(n)->Some_0 { unimplemented!() }
 #[verifier::external_body] pub fn flags_say_export(f: &Option<ClassFlags>) -> (r: bool) ensures r == (*f is Some && says_export(f->Some_0)) { unimplemented!() }
-#[verifier::external_body] pub struct IdentV { x: usize }
-// the block that builds the class's identifier (members, ClassType::new, Ident::new): abstract
-#[verifier::external_body] pub fn make_class_ident(ident_node: &Node, body_node: &Node, input: &Node) -> (r: Result<IdentV, VErr>) { unimplemented!() }
+// the class's identifier as importers will get it
+pub struct IdentV { pub name: VStr, pub ty: Option<TypeLayout>, pub read_only: bool }
+impl IdentV {
+    pub fn new(name: VStr, ty: Option<TypeLayout>, read_only: bool) -> (r: IdentV) ensures r.name == name, r.ty == ty, r.read_only == read_only { IdentV { name, ty, read_only } }
+    #[verifier::external_body] pub fn name(&self) -> (r: &VStr) ensures *r == self.name { unimplemented!() }
+    pub fn mark_const(&mut self) ensures final(self).read_only, final(self).name == old(self).name, final(self).ty == old(self).ty { self.read_only = true; }
+    // Ident::set_type_no_link: the type only
+    #[verifier::external_body] pub fn set_type_no_link(&mut self, t: TypeLayout) ensures final(self).name == old(self).name, final(self).read_only == old(self).read_only, final(self).ty == Some(t) { unimplemented!() }
+}
+#[verifier::external_body] pub fn parse_ident(n: Node) -> (r: Result<IdentV, VErr>) ensures r is Ok ==> str_view(&r->Ok_0.name) == node_text(&n) && r->Ok_0.ty is None && !r->Ok_0.read_only { unimplemented!() }
+#[verifier::external_body] pub struct Fields { x: usize }
+#[verifier::external_body] pub struct ClassTypeV { x: usize }
+#[verifier::external_body] pub fn get_members(body: &Node) -> (r: Result<Fields, VErr>) { unimplemented!() }
+#[verifier::external_body] pub fn class_type_new(name: VStr, f: Fields, n: &Node) -> (r: ClassTypeV) { unimplemented!() }
+#[verifier::external_body] pub fn class_ty(c: ClassTypeV) -> (r: TypeLayout) { unimplemented!() }
+#[verifier::external_body] pub fn node_name(n: &Node) -> (r: VStr) ensures str_view(&r) == node_text(n) { unimplemented!() }
+#[verifier::external_body] pub fn clone_name(n: &VStr) -> (r: VStr) ensures r == *n { unimplemented!() }
 #[verifier::external_body] pub fn add_type(input: &Node, i: &IdentV) { unimplemented!() }
 #[verifier::external_body] pub fn single_child(n: &Node) -> (r: Node) requires node_children(n).len() == 1 ensures r == node_children(n)[0] { unimplemented!() }
 #[verifier::external_body] pub fn child_at(c: &Children, k: usize) -> (r: Node) requires k < c.items@.len() ensures r == c.items@[k as int] { unimplemented!() }
@@ -23,7 +37,9 @@ pub uninterp spec fn says_export(f: ClassFlags) -> bool;                        
 #[verifier::external_body] pub struct ExportList { x: usize }
 pub uninterp spec fn from_decl(e: &ExportList) -> Seq<Node>;
 impl ExportList {
-    #[verifier::external_body] pub fn add_from(&mut self, i: IdentV, decl: &Node) ensures from_decl(final(self)) == from_decl(old(self)).push(*decl) { unimplemented!() }
+    #[verifier::external_body] pub fn add_from(&mut self, i: IdentV, decl: &Node)
+        requires i.read_only             // C10 / C11: a class name is a constant for the importers too
+        ensures from_decl(final(self)) == from_decl(old(self)).push(*decl) { unimplemented!() }
 }
 // a class declaration that says `export`: its first child is not the name but a flags node, and those flags say export
 pub open spec fn class_exported(c: Node) -> bool {
@@ -66,9 +82,17 @@ def build(repo):
         Rule("R8", "children . next ( ) . unwrap ( )", "unwrap_node ( children . next ( ) )", why="unwrap on a child: grammar child count (R8)"),
         Rule("R8", "children . next ( ) . expect ( $m )", "unwrap_node ( children . next ( ) )", why="expect on a child: grammar child count (R8)"),
         Rule("R6", "Parser :: class_flags ( $n ) . to_err_vec ( ) ?", "parse_class_flags ( $n ) ?", why="sub-parser abstract"),
-        Rule("R1", "let name = ident_node . as_str ( ) ;", "", why="the name's text: only used inside the abstracted block / logging"),
-        Rule("R6", "let ident = { $$b } ;", "let ident = make_class_ident ( & ident_node , & body_node , input ) ? ;", count=1, why="construction of the class's identifier (members, ClassType::new, Ident::new): abstract, may fail"),
+        Rule("R1", "let name = ident_node . as_str ( ) ;", "let name = node_name ( & ident_node ) ;", why="the name's text"),
+        Rule("R1", "let name = ident . name ( ) ;", "let name = clone_name ( ident . name ( ) ) ;", why="the name's text"),
+        Rule("R10", "let _class_scope = input . user_data ( ) . push_class_unknown_self ( ) ;", "", why="scope handle (scope stack not modelled here)"),
+        Rule("R6", "ClassBody :: get_members ( & body_node ) . to_err_vec ( ) ?", "get_members ( & body_node ) ?", why="sub-parser abstract"),
+        Rule("R6", "ClassType :: new ( Arc :: new ( name . to_owned ( ) ) , fields , input . user_data ( ) . bytecode_path ( ) , )", "class_type_new ( clone_name ( & name ) , fields , input )", why="class type constructor abstract"),
+        Rule("R6", "ClassType :: new ( Arc :: new ( ident . name ( ) . to_owned ( ) ) , fields , input . user_data ( ) . bytecode_path ( ) , )", "class_type_new ( clone_name ( ident . name ( ) ) , fields , input )", why="class type constructor abstract"),
+        Rule("R1", "Ident :: new ( name . to_owned ( ) , Some ( Cow :: Owned ( TypeLayout :: Class ( class_type ) ) ) , $f , )", "IdentV :: new ( clone_name ( & name ) , Some ( class_ty ( class_type ) ) , $f )", why="Ident::new(name, type, read_only)"),
+        Rule("R1", "Cow :: Owned ( TypeLayout :: Class ( class_type ) )", "class_ty ( class_type )", why="the class type as a TypeLayout"),
+        Rule("R6", "Parser :: ident ( ident_node ) . to_err_vec ( ) ?", "parse_ident ( ident_node ) ?", why="sub-parser abstract"),
         Rule("R6", "input . user_data ( ) . add_type ( name . into ( ) , ident . ty ( ) . unwrap ( ) . clone ( ) ) ;", "add_type ( input , & ident ) ;", why="type registry: abstract"),
+        Rule("R1", "log :: trace ! ( $$a ) ;", "", why="logging dropped"),
         Rule("R9", "class_flags . as_ref ( ) . is_some_and ( ClassFlags :: is_export )", "flags_say_export ( & class_flags )", why="Option::is_some_and(ClassFlags::is_export)"),
         Rule("R13", "export . add ( ident )", "export . add_from ( ident , & child )", why="the export list records which declaration an entry came from (provenance made explicit)"),
     ], log, "ModuleType::from_node[class]")
@@ -90,9 +114,9 @@ pub fn from_node_classes(input: &Node, export: &mut ExportList) -> (r: Result<()
 }} // verus!
 fn main() {{}}
 """
-    return gen, [Obl("C11.exports.class-only-exported", ["C11"], fn="ModuleType::from_node[class arm]", desc="from_node: a class is put on the module's export list only if that class declaration's own flags say `export`")], log
+    return gen, [Obl("C11.exports.class-only-exported", ["C11", "C10"], fn="ModuleType::from_node[class arm]", desc="from_node: a class is put on the module's export list only if that class declaration's own flags say `export`, and as a constant")], log
 
 
-UNITS = [VUnit("c11_class_export", ["C11"], "compile-time export list: only `export class` declarations", build)]
+UNITS = [VUnit("c11_class_export", ["C11", "C10"], "compile-time export list: only `export class` declarations", build)]
 UNITS[0].assumes = ["fragment: the declaration loop with the class arm; the other arms are dropped (variables: C11.exports.only-exported)", "pest API, sub-parsers and the construction of the class identifier abstract; child counts from the grammar",
                     "the run-time side registers every class in the module's export map (by inspection; the compile-time list is what stops an importer)"]
